@@ -19,7 +19,7 @@ EXPLANATION = (
     "exponent > 1 by one and multiplies the lowered power back; derivative's placeholder "
     "x**exponent is back-substituted by the BASE of the tensor. R14e: product rule over all "
     "occurrences, block keys from the space/spin of the removed tensor, contributions "
-    "accumulated per key.")
+    "accumulated per key. R08g: minimize_tensor_indices (used by both functions) on all index tuples of length <= 3.")
 ASSUMPTIONS = ["the round-trip value is not decided"]
 
 RM = "simplify:remove_tensor."
@@ -248,3 +248,6 @@ def run(ctx):
     for r, f in (("R14a", r14a), ("R14b", r14b), ("R14c", r14c), ("R14d", r14d), ("R14e", r14e)):
         if ctx.want(r):
             f(ctx)
+    if ctx.want("R08g"):
+        from . import c08
+        c08.r08g(ctx)
